@@ -97,4 +97,30 @@ theorem history_varying (own : List Nat) (items : List (Cfg × Glob × List Nat)
     (fun c g w st img s hq hw hi hr => step_holds c g w st img s hq.1 hq.2.1 hq.2.2.1 hw hi hq.2.2.2.2 hr)
     items w {} {} hitems hw init_inv ref_init
 
+/-- the predicate `./check C07` evaluates (`holdsC07F`: a Query may go unanswered while the platform refuses memory, nothing may be
+    lost) is the strict one on every trace without such a refusal - so `history` / `history_varying` are statements about it -/
+theorem holdsC07F_strict (own : List Nat) (t : List RxObs) (h : ∀ r ∈ t, r.allocFault = false) : holdsC07F own t = holdsC07 own t := by
+  unfold holdsC07F holdsC07
+  have hmem : ∀ (s : SpecSt) (t : List RxObs), (∀ r ∈ t, r.allocFault = false) → ∀ p ∈ specStatesDom own 300 s t, p.2.allocFault = false := by
+    intro s t
+    induction t generalizing s with
+    | nil => intro _ p hp; simp [specStatesDom] at hp
+    | cons r rest ih =>
+      intro h p hp
+      simp only [specStatesDom, List.mem_cons] at hp
+      rcases hp with rfl | hp
+      · exact h r (List.mem_cons_self ..)
+      · exact ih _ (fun r' hr' => h r' (List.mem_cons_of_mem _ hr')) p hp
+  rw [Bool.eq_iff_iff]
+  simp only [List.all_eq_true]
+  constructor
+  · intro hh p hp
+    have h1 := hh p hp
+    have hp' : p ∈ specStatesDom own 300 {} t := hp
+    simpa only [hmem {} t h p hp', Bool.false_eq_true, if_false] using h1
+  · intro hh p hp
+    have h1 := hh p hp
+    have hp' : p ∈ specStatesDom own 300 {} t := hp
+    simpa only [hmem {} t h p hp', Bool.false_eq_true, if_false] using h1
+
 end LLTD.C07H
